@@ -4,12 +4,21 @@ from . import common, pipe_checks, pipe_explore
 
 def run(ctx: common.Ctx):
     ctx.coverage['rule'] = (
-        'generated references (1-3 genes) with dense records; random enzyme (7), miscleavage 0-3, '
+        'generated references (1-3 genes) with dense records, in 70 % of the inputs with NON-CODING '
+        'twins of coding transcripts (same exons, lncRNA, not in the proteome: callNovelORF re-derives '
+        'canonical peptides incl. the Met-removed miscleaved N-terminal ones from another transcript); '
+        'random enzyme (7), miscleavage 0-3, '
         'length and mass limits, SECT/W2F flags; the three calling commands are run for real; '
-        'predicates evaluated on the output files: non-canonical, limits, no X/*, unique sequences, '
+        'predicates evaluated on the output files: non-canonical (against the pool the command loads '
+        'AND against the Lean digest model peptidePool of C10 on the proteome text + cds_start_NF '
+        'flags), limits, no X/*, unique sequences, '
         'table pairs = FASTA pairs, row slice; callVariant run also replayed through the Lean '
         'pipeline model and every written sequence through the Lean is_valid. non-trivial = >= 1 peptide')
-    pipe_checks.run_workers(ctx, pipe_explore.c04_worker, ctx.n(60, 800))
+    stats = pipe_checks.run_workers(ctx, pipe_explore.c04_worker, ctx.n(60, 800))
+    if ctx.driver_ok and stats.get('lean_pool_unavailable'):
+        ctx.add_broken('correspondence', 'lean_pool',
+                       f'{stats["lean_pool_unavailable"]} input(s): the native driver gave no canonical '
+                       'pool (C10 pool) for the proteome; the independent non-canonical check did not run')
     ctx.assumptions += [
         'no-X/no-stop and row-slice clauses depend on the graph callers: checked on real outputs, not proved',
         'float mass comparison vs exact 1e-4 Da integers']
